@@ -31,7 +31,8 @@ it answers `Res.unmodelled` (the harness does not compare there).  Not modelled:
 (`real` token) where it matters (`directed`, `multigraph`, `id`, `source`, `target`, `bipartite`),
 `multigraph` true, the empty tuple `"()"` as a node id, named character entities (`&amp;` …:
 the 252-entry table of `html.entities`) and references to surrogate code points inside a string that
-matters, nesting deeper than `maxDepth` (CPython's recursion limit — RecursionError — lives there).
+matters, nesting deeper than `maxDepth` (CPython's recursion limit lives there: beyond it `readGraph`
+answers ValueError since 3609e15, below it the text is parsed; the limit itself is not modelled).
 -/
 import CnfgenModel.IO.GraphFmt
 import CnfgenModel.Graph.NxBuild
@@ -733,13 +734,22 @@ def normalize (ty : GType) (P : Parsed) : Res AnyG :=
     if !P.directed then .err .typeError
     else (liftE (DiG.ofEdges P.labels.length (fromNxCalls P))).bind (fun g => .ok (.di g))
 
-/-- the `except` clauses of the gml branch of `readGraph` -/
+/-- the `except` clauses of the gml branch of `readGraph`:
+`except (networkx.NetworkXError, TypeError, IndexError, AttributeError, RecursionError)` (the last two
+since 3609e15: networkx calls `.pop` on a non-dictionary `graph` / `node` / `edge` value — AttributeError,
+former defect D43; RecursionError, former D44, lives beyond `maxDepth`) and `except UnicodeEncodeError` -/
 def cnfgenCatch : Exc → Exc
   | .networkx => .valueError
   | .typeError => .valueError
   | .indexError => .valueError
+  | .attributeError => .valueError
   | .unicodeEncode => .valueError
-  | e => e
+  | .valueError => .valueError
+
+/-- the clauses before 3609e15 (kept for the regression statements) -/
+def cnfgenCatchOld : Exc → Exc
+  | .attributeError => .attributeError
+  | e => cnfgenCatch e
 
 /-- `G.name` of the object returned (`C.name = G.name`; the default is `''`) -/
 def nameOf (P : Parsed) : Field :=
